@@ -11,7 +11,7 @@ theorem Frame.setDirty (p : Program) (s : St) (dirty' : Key → Key → Bool) :
   Frame.of_nodes (s := s) (s' := { s with dirty := dirty' }) rfl rfl rfl (fun _ => Or.inl rfl)
 
 /-- the clean path of `repair_query`: every recorded callee has been found unchanged -/
-theorem clean_spec {p : Program} (wf : WF p) {s1 : St} (i1 : Inv p s1) {k : Key} {n : Node}
+theorem clean_spec {p : Program} (wf : WF p) (sh : Shape p) {s1 : St} (i1 : Inv p s1) {k : Key} {n : Node}
     (k1 : s1.nodes k = some n) (hnv : n.lastVerified ≠ s1.epoch) (moved : Bool) (cl : List Key)
     (hall : ∀ d o, (d, o) ∈ n.deps → DepOK s1 n moved d o)
     (hw : moved = true → ∃ d o nd, (d, o) ∈ n.deps ∧ s1.nodes d = some nd ∧ nd.kind ≠ .firewall ∧
@@ -31,8 +31,12 @@ theorem clean_spec {p : Program} (wf : WF p) {s1 : St} (i1 : Inv p s1) {k : Key}
     | true =>
       have hkp : n.kind ≠ .projection := by
         intro hkp
-        obtain ⟨wd, wo, wnd, wm, wnode, wk, _⟩ := hw rfl
-        exact wk (i1.pjFw k n k1 hkp wd wo wnd wm wnode)
+        obtain ⟨wd, wo, wnd, wm, wnode, wk, wne⟩ := hw rfl
+        rcases sh with pa | sp
+        · exact wk (i1.pjFw pa k n k1 hkp wd wo wnd wm wnode)
+        · rcases i1.pjKinds k n k1 hkp wd wo wnd wm wnode with h | h
+          · exact wk h
+          · exact wne (i1.pjSeen sp k n wd wo wnd k1 wm wnode h).symm
       obtain ⟨ia, fa, sa⟩ := i1.setMoved k1 hkp hnv
         (fun d o hm => by obtain ⟨nd, a, b, c, _⟩ := hall d o hm; exact ⟨nd, a, b, c⟩) (hw rfl)
       refine ⟨{ n with lastVerified := s1.epoch, tfc := recomputeTfc s1 n.deps, seen := tfcOf s1 },
@@ -353,5 +357,156 @@ theorem runProg_reads (q : Q) (P : Key → Prop) :
       obtain ⟨vs, a1, s1⟩ := r1
       rw [hq] at h
       exact ih vs a1 s1 (hc vs) (askMany_reads q P ks a s hd ha _ hq) r h
+
+-- ------------------------------------------------------------------ static read sequences (class B)
+
+/-- a node verified in this epoch keeps its frontier contribution -/
+theorem front_vkeep {p : Program} {s s' : St} (i : Inv p s) (i' : Inv p s') (f : Frame p s s') {d : Key}
+    {nd : Node} (hnd : s.nodes d = some nd) (hv : nd.lastVerified = s.epoch) : front s' d = front s d := by
+  obtain ⟨nd', hnd', _, ht⟩ := f.vkeep d nd hnd hv
+  obtain ⟨dd, hp, hk, _⟩ := i.kind d nd hnd
+  obtain ⟨dd', hp', hk', _⟩ := i'.kind d nd' hnd'
+  rw [hp] at hp'; cases hp'
+  simp only [front, hnd, hnd', ht, ← hk, ← hk']
+
+theorem observe_keys_eq (s : St) (a : Acc) (d : Key) (v : Val) :
+    (observe s a d v).deps.map (·.1) =
+      if (a.deps.map (·.1)).contains d then a.deps.map (·.1) else a.deps.map (·.1) ++ [d] := by
+  have h : a.deps.any (fun e => e.1 == d) = (a.deps.map (·.1)).contains d := by
+    induction a.deps with
+    | nil => rfl
+    | cons e rest ih =>
+      simp only [List.any_cons, List.map_cons, List.contains_cons, ih]
+      congr 1
+      exact Bool.beq_comm
+  simp only [observe, h]
+  split <;> simp
+
+theorem askMany_static {p : Program} {q : Q} {k : Key} (hq : QSpec p q k) :
+    ∀ (ks : List Key) (a : Acc) (s : St), (∀ d, d ∈ ks → d < k) → Inv p s → AccOK p k s a →
+      Sat (askMany q ks a s) (fun r =>
+        r.2.1.deps.map (·.1) = recordKeys ks (a.deps.map (·.1)) ∧
+          r.2.1.tfc = foldTfc (front r.2.2) ks a.tfc) := by
+  intro ks
+  induction ks with
+  | nil => intro a s _ _ _; simp only [askMany]; exact ⟨rfl, rfl⟩
+  | cons d rest ih =>
+    intro a s hb inv hacc
+    have hd : d < k := hb d (List.mem_cons_self ..)
+    have hqd := hq d hd s inv
+    simp only [askMany]
+    cases hr : q d s with
+    | error e => rw [hr] at hqd; simpa [Sat] using hqd
+    | ok r =>
+      obtain ⟨v, s1⟩ := r
+      rw [hr] at hqd
+      obtain ⟨i1, f1, t1, c1, nd, hnd, hvd, hver⟩ := hqd
+      simp only at i1 f1 t1 c1 hnd hvd hver ⊢
+      obtain ⟨hacc2, _, _⟩ := observe_spec i1 (hacc.frame inv f1) hd (by rw [f1.cur]; exact c1) hnd hvd hver
+      have hb' : ∀ d', d' ∈ rest → d' < k := fun d' hm => hb d' (List.mem_cons_of_mem _ hm)
+      have hrest := ih (observe s1 a d v) s1 hb' i1 hacc2
+      have hspec := askMany_spec hq rest (observe s1 a d v) s1 hb' i1 hacc2
+      cases hr2 : askMany q rest (observe s1 a d v) s1 with
+      | error e => rw [hr2] at hrest; simpa [Sat] using hrest
+      | ok r2 =>
+        obtain ⟨vs, a2, s2⟩ := r2
+        rw [hr2] at hrest hspec
+        obtain ⟨h1, h2⟩ := hrest
+        obtain ⟨i2, f2, _⟩ := hspec
+        simp only at h1 h2 i2 f2 ⊢
+        refine ⟨?_, ?_⟩
+        · rw [h1, observe_keys_eq]; rfl
+        · rw [h2]
+          show foldTfc (front s2) rest (Qbice.Engine.unionSorted (front s1 d) a.tfc) =
+            foldTfc (front s2) rest (Qbice.Engine.unionSorted (front s2 d) a.tfc)
+          rw [front_vkeep i1 i2 f2 hnd hver]
+
+/-- a static executor records exactly its read sequence and accumulates the contributions of its
+    callees in that order -/
+theorem runProg_static {p : Program} {q : Q} {k : Key} (hq : QSpec p q k) :
+    ∀ (prog : Prog) (ks : List Key) (a : Acc) (s : St), prog.Below k → ProgStatic prog ks → Inv p s →
+      AccOK p k s a →
+      Sat (runProg q prog a s) (fun r =>
+        r.2.1.deps.map (·.1) = recordKeys ks (a.deps.map (·.1)) ∧
+          r.2.1.tfc = foldTfc (front r.2.2) ks a.tfc) := by
+  intro prog
+  induction prog with
+  | ret v =>
+    intro ks a s _ hst _ _
+    simp only [ProgStatic] at hst
+    subst hst
+    simp only [runProg]
+    exact ⟨rfl, rfl⟩
+  | ask d cont ih =>
+    intro ks a s hb hst inv hacc
+    obtain ⟨hd, hc⟩ := hb
+    obtain ⟨rest, rfl, hst'⟩ := hst
+    have hqd := hq d hd s inv
+    simp only [runProg]
+    cases hr : q d s with
+    | error e => rw [hr] at hqd; simpa [Sat] using hqd
+    | ok r =>
+      obtain ⟨v, s1⟩ := r
+      rw [hr] at hqd
+      obtain ⟨i1, f1, t1, c1, nd, hnd, hvd, hver⟩ := hqd
+      simp only at i1 f1 t1 c1 hnd hvd hver ⊢
+      obtain ⟨hacc2, _, _⟩ := observe_spec i1 (hacc.frame inv f1) hd (by rw [f1.cur]; exact c1) hnd hvd hver
+      have hrest := ih v rest (observe s1 a d v) s1 (hc v) (hst' v) i1 hacc2
+      have hspec := runProg_spec hq (cont v) (observe s1 a d v) s1 (hc v) i1 hacc2
+      cases hr2 : runProg q (cont v) (observe s1 a d v) s1 with
+      | error e => rw [hr2] at hrest; simpa [Sat] using hrest
+      | ok r2 =>
+        obtain ⟨v', a2, s2⟩ := r2
+        rw [hr2] at hrest hspec
+        obtain ⟨h1, h2⟩ := hrest
+        obtain ⟨i2, f2, _⟩ := hspec
+        simp only at h1 h2 i2 f2 ⊢
+        refine ⟨?_, ?_⟩
+        · rw [h1, observe_keys_eq]; rfl
+        · rw [h2]
+          show foldTfc (front s2) rest (Qbice.Engine.unionSorted (front s1 d) a.tfc) =
+            foldTfc (front s2) rest (Qbice.Engine.unionSorted (front s2 d) a.tfc)
+          rw [front_vkeep i1 i2 f2 hnd hver]
+  | askAll ks' cont ih =>
+    intro ks a s hb hst inv hacc
+    obtain ⟨hd, hc⟩ := hb
+    obtain ⟨rest, rfl, hst'⟩ := hst
+    have hall := askMany_static hq ks' a s hd inv hacc
+    have hallS := askMany_spec hq ks' a s hd inv hacc
+    simp only [runProg]
+    cases hr : askMany q ks' a s with
+    | error e => rw [hr] at hall; simpa [Sat] using hall
+    | ok r =>
+      obtain ⟨vs, a1, s1⟩ := r
+      rw [hr] at hall hallS
+      obtain ⟨g1, g2⟩ := hall
+      obtain ⟨i1, f1, _, a1ok, _⟩ := hallS
+      simp only at g1 g2 i1 f1 a1ok ⊢
+      have hrest := ih vs rest a1 s1 (hc vs) (hst' vs) i1 a1ok
+      have hspec := runProg_spec hq (cont vs) a1 s1 (hc vs) i1 a1ok
+      cases hr2 : runProg q (cont vs) a1 s1 with
+      | error e => rw [hr2] at hrest; simpa [Sat] using hrest
+      | ok r2 =>
+        obtain ⟨v', a2, s2⟩ := r2
+        rw [hr2] at hrest hspec
+        obtain ⟨h1, h2⟩ := hrest
+        obtain ⟨i2, f2, _, a2ok, _⟩ := hspec
+        simp only at h1 h2 i2 f2 a2ok ⊢
+        refine ⟨?_, ?_⟩
+        · rw [h1, g1]; simp [recordKeys, List.foldl_append]
+        · rw [h2, g2]
+          have : foldTfc (front s1) ks' a.tfc = foldTfc (front s2) ks' a.tfc := by
+            apply foldTfc_congr
+            intro d hdm
+            -- every member of the group is verified in `s1`
+            obtain ⟨nd, hnd, hv⟩ : ∃ nd, s1.nodes d = some nd ∧ nd.lastVerified = s1.epoch := by
+              have hmem : d ∈ a1.deps.map (·.1) := by rw [g1]; exact mem_recordKeys.2 (Or.inr hdm)
+              rw [List.mem_map] at hmem
+              obtain ⟨⟨d', o⟩, hm, rfl⟩ := hmem
+              obtain ⟨_, _, nd, hnd, _, hv, _⟩ := a1ok.2.2 d' o hm
+              exact ⟨nd, hnd, hv⟩
+            exact (front_vkeep i1 i2 f2 hnd hv).symm
+          rw [this]
+          simp [foldTfc, List.foldl_append]
 
 end Qbice.CoreFw
